@@ -5,10 +5,30 @@ ROOT = os.path.dirname(os.path.dirname(os.path.abspath(__file__)))
 props = [json.loads(l) for l in open(os.path.join(ROOT, "properties.jsonl"))]
 
 # property -> (category, technique, level text, level note, design ref)
+NOTE = "Exact-arithmetic theorems about a hand-written Lean model; the model-code tie is the seeded correspondence run of this check (Float interpretation of the same definitions through the native driver) plus the property oracle evaluated on the implementation; floating point to the tolerances recorded in the evidence; external libraries (SuperLU, scipy.sparse, h5py, numba, Triangle, shapely) are modelled or validated at run time, not verified."
+def P(tech, text, ref, cat="proof", note=NOTE):
+    return (cat, tech, text, note, ref)
 CLAIMED = {
- "C02": ("proof", "Lean 4 theorems over ℝ about the per-site root + Float-model/numpy correspondence + extended-precision oracle",
-         "Machine-checked theorems (soundness, exact refusal, physical branch, all-sites, documented equation) about the Lean model of solve_for_psi_squared, for every complex z, w; the model's Float interpretation is compared site by site with the implementation and an independent extended-precision oracle evaluates the theorems' conclusions on the implementation's own answers.",
-         "Exact-arithmetic theorems; floating-point agreement is to the stated tolerance; the model-code tie is the sampled correspondence run; overflow/underflow regime not claimed.", "§5 C02"),
+ "C01": P("Lean 4 theorems over any field (cell continuity for any μ solving the Poisson equation; shares; units) + Float-model correspondence with solve_for_observables + SI continuity oracle on saved frames",
+          "Per-cell continuity, zero outflow away from terminals, balanced terminal density and the unit conversion are machine-checked for every mesh; real runs (2-4 terminals, holes, ramped fields, time-dependent currents, screening) are checked frame by frame against the injection computed independently from the requested currents in SI; acceptance of balanced assignments is exercised on the real constructor.", "§5 C01"),
+ "C02": P("Lean 4 theorems over ℝ about the per-site root + Float-model/numpy correspondence + extended-precision oracle",
+          "Machine-checked theorems (soundness, exact refusal, physical branch, all-sites, documented equation) about the Lean model of solve_for_psi_squared, for every complex z, w; the model's Float interpretation is compared site by site with the implementation and an independent extended-precision oracle evaluates the theorems' conclusions on the implementation's own answers.", "§5 C02"),
+ "C03": P("Lean 4 theorems over any (ordered) field for every well-formed mesh + Float-model correspondence with the scipy-assembled operators + identity residuals on the implementation matrices",
+          "L = D∘G, Σ a·(DF) = 0, boundary flux, Green identity, symmetry, negative semidefiniteness, kernel = constants on connected meshes, Hermitian covariant Laplacian and exact gradient of linear functions are theorems for all meshes/weights/fields; the four builders are compared with the model's row functions on a mesh zoo.", "§5 C03"),
+ "C04": P("Lean 4 theorems over ℝ (gauge covariance of gradient, Laplacian, Euler step; invariance of Js, μ, Jn; whole run by induction) + operator-level and paired-run correspondence",
+          "Covariance for arbitrary site functions χ and invariance of all observables over whole runs are machine-checked for the model; the implementation's matrices are checked for covariance with random χ and paired real runs in shifted gauges (gauge-related initial data) are compared in gauge-invariant quantities at every frame.", "§5 C04"),
+ "C05": P("Lean 4 theorems (loop invariant by induction over iterations, any physics, any k, any T) + exhaustive bounded correspondence of real tdgl.solve traces with an executable specification and with the Lean loop model",
+          "Frame labels, frame contents, clock, one record per step, stop step and thermalisation are theorems about the loop model for every update function; every (k, N) in the property's bound is run for real and its HDF5 trace compared bit for bit with a bare-update reference trajectory and with the model's trace.", "§5 C05"),
+ "C06": P("Lean 4 theorems (identity rows before/after refresh, unpinned rows untouched, None = free, ψ=0 and any terminal value held) + real runs checked on every frame + Euler-step correspondence on all sites",
+          "Pinning is a theorem about the operator and update model for every mesh and vector potential; real runs with terminal_psi in {0, None, 0.5, 1, 0.6i} are checked for exact equality on terminal sites and free evolution elsewhere.", "§5 C06"),
+ "C10": P("Lean 4 theorems over any field (refresh = rebuild entrywise, any history, pinned rows, entries are the matrix of the row action) + MeshOperators driven through sequences vs fresh builds and vs the model's refreshed entries",
+          "For every well-formed mesh, pinned set and finite history the refreshed matrices equal the rebuilt ones (theorem); the implementation is driven through sequences of length 1..6 and compared entry by entry.", "§5 C10"),
+ "C11": P("Lean 4 theorems (frames lie on one trajectory whatever k; records/probes do not feed back; resumption) + pairwise bit-for-bit comparison of real runs differing in one recording option and of all split points of a resumed run",
+          "Observer independence and resumption are theorems about the loop model for every physics; the implementation is compared pairwise, bit for bit.", "§5 C11"),
+ "C12": P("Lean 4 theorems over ordered fields (retry law, exhaustion, non-adaptive refusal, documented rule, bounds by induction over the run, fixed step) + step-by-step replay of TDGLSolver.update against the Lean controller",
+          "The dt controller is proved for every refusal oracle and history; the real update is driven with genuine and scheduled refusals and compared bit for bit (dt used) with the model replayed on the same answers.", "§5 C12"),
+ "C17": P("Lean 4 theorems over ℝ (Laplacian of constants vanishes at A=0, per-site fixed point for all γ,u,dt, whole-update fixed point, induction over steps) + undriven real runs and dt sequence vs the Lean controller",
+          "Stationarity of the uniform state is a theorem for every mesh given only solve(0)=0; undriven real runs on irregular/holed/smoothed meshes stay at the uniform state to 1e-15 and the adaptive step reaches dt_max as the model predicts.", "§5 C17"),
 }
 PENDING_REASON = "check not yet built in this revision (work in progress; see DESIGN.md §9 order of work)"
 
